@@ -7,8 +7,9 @@ Open Scope Z_scope.
 
 (* ---- known classes (Fmt/Wf.v holds the recursive definitions) ---- *)
 Definition Known_C08_float_integral (e : expr) : Prop := has_intfloat e = true.
-Definition Known_C08_slice_colon_colon (e : expr) : Prop := has_cc e = true.
-Definition Known_C08 (e : expr) : Prop := Known_C08_float_integral e \/ Known_C08_slice_colon_colon e.
+(* a slice printed with the `::` token; a finding class until /repo 974c053 taught the parser `::`, now just a shape *)
+Definition slice_colon_colon (e : expr) : Prop := has_cc e = true.
+Definition Known_C08 (e : expr) : Prop := Known_C08_float_integral e.
 
 (* ---- rendering to integers ---- *)
 Definition kw_code (k : kw) : Z :=
